@@ -1404,7 +1404,11 @@ def run(ctx):
 
 
 def replay(ctx, payload):
-    load_skeletons()
+    # the driver must run on the skeletons of the tree being replayed against
+    regenerate(ctx)
+    ok, log = fw.lake_build(["NmlVerif.Gen.Skeletons"])
+    if not ok:
+        return {"fails": True, "error": "cannot build Gen/Skeletons.lean", "log": log[-500:]}
     case = payload.get("case", {})
     if "spec" in case and "offset" in case:
         lines, pending = [], []
